@@ -182,6 +182,15 @@ def run_specs(pid, tier, seed, factor, judge):
             c = specrun.rand_config(prnd, "rot")
             c.update(rot="pad", alpha="abc", db=prnd.choice(["RuleDB", "RuleDBForgetStrategy", "RuleDBForest"]), iterative=False)
             cfgs.append(c)
+    if pid == "C01":
+        # several classes verified by one strategy object that only offers a pack: their terms come from specifications the
+        # library finds itself, one per class
+        vrnd = random.Random(seed * 15485863 + 1)
+        for _ in range(common.scale(tier, 24, 240) * factor):
+            c = specrun.rand_config(vrnd, "packver")
+            c.update(packver=["a", "b"], alpha=vrnd.choice(["ab", "abc"]), prefix="", rot=False, sep=None, reverse_needed=False, iterative=False,
+                     factory=None)
+            cfgs.append(c)
     outs = specrun.pool_map(worker, [(c, N) for c in cfgs])
     specrun.quiet()
     # a specification whose counting fails (status evalexc / evaltimeout) still has a skeleton: it is judged as well
